@@ -40,7 +40,7 @@ static struct {
 	int trig_order[MAXOBJ]; int ntrig;
 	int W, R;
 } S;
-enum { CV_CALLS = 0, CV_READY, CV_TIMEOUT, CV_SLEPT, CV_HEAP_PATH, CV_READY_AT_ENTRY, CV_WITH_MU, CV_RETRIGGERS };
+enum { CV_CALLS = 0, CV_READY, CV_TIMEOUT, CV_SLEPT, CV_HEAP_PATH, CV_READY_AT_ENTRY, CV_WITH_MU, CV_RETRIGGERS, CV_IDLE };
 
 /* ---- wrapped waitable functions ---- */
 static __thread struct call *cur_call;
@@ -140,6 +140,24 @@ static void trigger_thread (void) {
 		if (!rt_mode_b ()) rt_sleep_us (50);
 	}
 }
+/* Mode B idle oracle: nothing is runnable, only deadlines are pending.  A call asleep inside nsync_wait_n although the
+   trigger of one of its notes or counters has RETURNED keeps sleeping after an object became ready (C11), even if its own
+   deadline would rescue it later.  (A cv wake-up may legitimately have gone to another waiter, so cvs are not judged.)  */
+static void idle_check (void) {
+	int t, i;
+	rt_cover (CV_IDLE);
+	for (t = 0; t < S.nw; t++) {
+		struct call *c = &S.c[t];
+		if (!rt_thread_blocked (t) || strcmp (rt_thread_op (t), "nsync_wait_n") != 0 || !strcmp (rt_thread_at (t), "nsync_mu_lock_slow_")) continue;
+		for (i = 0; i < c->n; i++) {
+			struct obj *o = &S.o[c->objs[i]];
+			uint64_t td = __atomic_load_n (&o->trig_done, __ATOMIC_ACQUIRE);
+			if (o->type == T_NOTE && o->v == (void *) S.note[1] && td == 0) td = __atomic_load_n (&S.o[2].trig_done, __ATOMIC_ACQUIRE);   /* a child note fires with its parent */
+			if (o->type != T_CV && td != 0)
+				rt_violation ("waitn-asleep-ready", o->type == T_NOTE ? "note" : "counter", "idle instant (only deadlines pending): object %d of thread %d's nsync_wait_n (a %s) was made ready and the call that did it has returned, yet the thread is still asleep inside nsync_wait_n", i, t, o->type == T_NOTE ? "note" : "counter");
+		}
+	}
+}
 static void body (int tid) { if (tid < S.nw) waiter (tid); else trigger_thread (); }
 
 static int setup (uint64_t seed) {
@@ -217,6 +235,6 @@ static void describe (FILE *f) {
 }
 static void pinit (void) {
 	rt_cover_name (CV_CALLS, "wait_n_calls"); rt_cover_name (CV_READY, "returned_ready_index"); rt_cover_name (CV_TIMEOUT, "returned_count"); rt_cover_name (CV_SLEPT, "calls_that_slept");
-	rt_cover_name (CV_HEAP_PATH, "calls_with_5_objects_heap_path"); rt_cover_name (CV_READY_AT_ENTRY, "calls_ready_at_entry"); rt_cover_name (CV_WITH_MU, "calls_with_mutex"); rt_cover_name (CV_RETRIGGERS, "objects_retriggered_after_return");
+	rt_cover_name (CV_HEAP_PATH, "calls_with_5_objects_heap_path"); rt_cover_name (CV_READY_AT_ENTRY, "calls_ready_at_entry"); rt_cover_name (CV_WITH_MU, "calls_with_mutex"); rt_cover_name (CV_RETRIGGERS, "objects_retriggered_after_return"); rt_cover_name (CV_IDLE, "idle_instants_checked");
 }
-rt_scenario rt_scen = { "waitn", "C11", 4, &pinit, &setup, &body, &check, &teardown, &describe, NULL, NULL, NULL };
+rt_scenario rt_scen = { "waitn", "C11", 4, &pinit, &setup, &body, &check, &teardown, &describe, NULL, NULL, NULL, &idle_check };
